@@ -464,6 +464,10 @@ func init() {
 		for i, c := range cases {
 			o.emit(c.line(), impls[i], preds[i])
 		}
+		for _, proto := range []string{"netrpc", "grpc"} {
+			impl, pred := runTestModeProcDies(proto)
+			o.emit("!C03.testmode-proc-dies proto="+proto, impl, pred)
+		}
 		for i := 0; i < 2; i++ {
 			a := <-agedCh
 			o.emit("!C03.reattach-aged proto="+a.proto+" age=8500", a.impl, a.pred)
